@@ -303,6 +303,12 @@ func (p *pkgInfo) Module() *packages.Module {
 }
 
 func (p *pkgInfo) Imports() map[string]Package {
+	// imported packages may be registered after this pkg created
+	for pkgPath, imported := range p.imports {
+		if imported == nil {
+			p.imports[pkgPath] = p.u.Package(pkgPath)
+		}
+	}
 	return p.imports
 }
 
